@@ -7,3 +7,4 @@ unset GOWORK
 mkdir -p bin evidence/replay
 cd checker
 go build -o ../bin/notacheck .
+go build -o ../bin/refactor ./cmd/refactor
